@@ -1127,3 +1127,42 @@ def single_consumer(ctx, B, rule="R10.5"):
     for fn in (B.b1, B.b2):
         re_q = [t for _, t in fn.calls() if t.callee.is_("PrioritySender::send", "UnboundedSender::send")]
         ctx.require(not re_q, rule, "no-requeue:" + fn.def_.split("::")[-1], "handlers never re-queue a control", fn.loc(fn.line))
+
+
+def wrapper_table(ctx, rule):
+    """SpawnOptions -> process-wrap wrappers, by pattern semantics over the match in Command::to_spawnable"""
+    f = ctx.anchor_one(rule, "Command::to_spawnable", ctx.facts.fns_matching(r"command::.*to_spawnable$", crate=SUP))
+    root = thir.root(f)
+    ms = [m for m in thir.find(root, "match") if m["src"] == "Normal" and m["sty"].endswith("SpawnOptions")]
+    if len(ms) != 1:
+        ctx.violation(rule, "floor:spawn-options-match", "to_spawnable no longer matches on SpawnOptions once", f.loc(f.line))
+        return f
+    m = ms[0]
+    SO = SUP + "::command::SpawnOptions"
+    for session in (True, False):
+        for grouped in (True, False):
+            val = ("v", SO, "SpawnOptions", {"session": ("b", session), "grouped": ("b", grouped), "reset_sigmask": thir.ANY})
+            i = thir.first_arm(m, val)
+            key = "session=%s,grouped=%s" % (session, grouped)
+            if i is None:
+                ctx.incomplete(rule, "wrappers:" + key, "cannot decide the arm", f.loc(m["l"]))
+                continue
+            wraps = []
+            for c, n in thir.calls_in(m["arms"][i]["b"]):
+                if strip_generics(c).endswith("TokioCommandWrap::wrap"):
+                    full = thir.peel(n["fn"]).get("full", "")
+                    wraps.append(full[full.index("wrap::<") + 7:-1] if "wrap::<" in full else full)
+            want = ["process_wrap::tokio::session::ProcessSession"] if session else (["process_wrap::tokio::process_group::ProcessGroup"] if grouped else [])
+            short = [w.split("::")[-1] for w in wraps]
+            ctx.require(short == [w.split("::")[-1] for w in want], rule, "wrappers:" + key,
+                        "%s -> %s" % (key, short or "no group wrapper"), f.loc(m["arms"][i]["l"]),
+                        fail="with %s the command is wrapped with %s, expected %s: signals/kills may miss the rest of the process group or session"
+                             % (key, short, [w.split("::")[-1] for w in want]))
+            if not session and grouped:
+                leader = any(strip_generics(c).endswith("ProcessGroup::leader") for c, _ in thir.calls_in(m["arms"][i]["b"]))
+                ctx.require(leader, rule, "wrappers:group-leader", "a grouped command is made its group's leader", f.loc(m["arms"][i]["l"]))
+    # reset_sigmask
+    ifs = [n for n in thir.find(root, "if") if pathx.desc(n["c"]).endswith("options.reset_sigmask")]
+    ok = len(ifs) == 1 and any("ResetSigmask" in thir.peel(n["fn"]).get("full", "") for c, n in thir.calls_in(ifs[0]["t"]))
+    ctx.require(ok, rule, "wrappers:reset-sigmask", "reset_sigmask => ResetSigmask wrapper", f.loc(f.line))
+    return f
